@@ -129,7 +129,7 @@ func (st *State) entTerminal(fr *Frame, in ssa.CallInstruction, callee *ssa.Func
 			if name == "All" {
 				res = st.mkEntities(t, b, rows, n)
 			} else {
-				res = st.mkColumnSlice(results.At(0).Type().Underlying().(*types.Slice).Elem(), func(i *Term) *Term { return Select(rows, i) }, n)
+				res = st.mkArraySlice(results.At(0).Type().Underlying().(*types.Slice).Elem(), rows, n)
 			}
 			k(st, st.resultWithErr(results, IntLit(0), res))
 		case "Only", "First", "OnlyID", "FirstID":
@@ -287,6 +287,20 @@ func (st *State) queryRows(b *entBuilder) (rows *Term, n *Term) {
 	return rows, n
 }
 
+// mkArraySlice allocates a slice whose backing store is exactly the given array (no quantifier needed).
+func (st *State) mkArraySlice(elem types.Type, arr *Term, n *Term) *SliceV {
+	base := st.allocRef()
+	ls := st.e.leaves(elem)
+	if len(ls) != 1 {
+		st.unsupported("ent: column slice of non-scalar element %s", typeKey(elem))
+	}
+	key := "E|" + typeKey(elem) + "|"
+	s := ArrS(SInt, ArrS(SInt, ls[0].Sort))
+	cur := st.heapGet(st.heap, key, s, ls[0].IsRef)
+	st.heapSetInner(key, cur, base, arr)
+	return &SliceV{Base: base, Off: IntLit(0), Len: n, Cap: n, Elem: elem}
+}
+
 // mkColumnSlice allocates a slice whose i-th element is val(i).
 func (st *State) mkColumnSlice(elem types.Type, val func(i *Term) *Term, n *Term) *SliceV {
 	base := st.allocRef()
@@ -300,7 +314,7 @@ func (st *State) mkColumnSlice(elem types.Type, val func(i *Term) *Term, n *Term
 	inner := st.fresh("col", ArrS(SInt, ls[0].Sort))
 	i := st.qv("i")
 	st.assume(Forall([]*Term{i}, Implies(And(Ge(i, IntLit(0)), Lt(i, n)), Eq(Select(inner, i), val(i))), Select(inner, i)))
-	st.heapSet(key, Store(arr, base, inner))
+	st.heapSetInner(key, arr, base, inner)
 	return &SliceV{Base: base, Off: IntLit(0), Len: n, Cap: n, Elem: elem}
 }
 
@@ -670,7 +684,10 @@ func (st *State) scanInto(b *entBuilder, dst SVal, dstType types.Type) {
 	x := st.qv("x")
 	vx := st.colGet(h, t, col, x)
 	st.assume(Forall([]*Term{x}, Implies(st.selFormula(h, b, x), And(inR(Select(vpos, vx)), Eq(Select(vals, Select(vpos, vx)), vx)))))
-	res := st.mkColumnSlice(elem, func(i *Term) *Term { return Select(vals, i) }, n)
+	res := st.mkArraySlice(elem, vals, n)
+	// the set of result values, directly: every selected row's value is a member
+	mem := st.memberArr(st.heap, res)
+	st.assume(Forall([]*Term{x}, Implies(st.selFormula(h, b, x), Select(mem, vx))))
 	st.storeScanResult(ptr, sliceT, res)
 }
 
